@@ -169,6 +169,13 @@ func TestWorker(t *testing.T) {
 			out.HarnessErr = fmt.Sprintf("seed=%d worker=%d run=%d stratum=%s: %s", seed, worker, runIdx, st.Name, res.HarnessErr)
 			return
 		}
+		if hl := os.Getenv("VERIF_HASHLOG"); hl != "" {
+			// determinism self-test: one line per run (stratum, schedule hash, steps, tape length, number of violations)
+			if fh, err := os.OpenFile(hl, os.O_APPEND|os.O_CREATE|os.O_WRONLY, 0o644); err == nil {
+				fmt.Fprintf(fh, "%s seed=%d worker=%d run=%d %s hash=%016x steps=%d tape=%d viol=%d\n", prop, seed, worker, runIdx, st.Name, res.SchedHash, res.Steps, len(res.Tape), len(res.Viol))
+				fh.Close()
+			}
+		}
 		all[res.SchedHash] = true
 		if res.Probes["nontrivial"] > 0 {
 			nontrivial[res.SchedHash] = true
